@@ -337,6 +337,23 @@ pub fn run(cases_path: &str, out_path: &str, tier: &str, seed: u64) {
                         return Err(format!("SecretSubkey::write_len_with_header announces {} but {} octets are written", s.key.write_len_with_header(), w.len()));
                     }
                 }
+                // the header the object carries (packet_header(), part of its equality) announces the body it has NOW
+                {
+                    use pgp::packet::PacketTrait;
+                    use pgp::types::PacketLength;
+                    if let PacketLength::Fixed(n) = pk.packet_header().packet_length() {
+                        if n as usize != Serialize::write_len(pk) { return Err(format!("SecretKey: stored packet header announces {n} octets, the body has {}", Serialize::write_len(pk))); }
+                    }
+                    for s in &k.secret_subkeys {
+                        if let PacketLength::Fixed(n) = s.key.packet_header().packet_length() {
+                            if n as usize != Serialize::write_len(&s.key) { return Err(format!("SecretSubkey: stored packet header announces {n} octets, the body has {}", Serialize::write_len(&s.key))); }
+                        }
+                    }
+                    // and the whole key re-imports to an EQUAL value
+                    let bytes = k.to_bytes().map_err(|e| e.to_string())?;
+                    let back = <SignedSecretKey as Deserializable>::from_bytes(&bytes[..]).map_err(|e| e.to_string())?;
+                    if back != k { return Err("the key does not re-import to an equal value after this change".into()); }
+                }
                 Ok(())
             });
             let fkey = if r.detail().contains("write_len_with_header announces") { "stale_header_after_password_change" } else { "mutation" };
